@@ -31,11 +31,14 @@ import (
 
 	"verif.local/lab/pipeline"
 	"verif.local/lab/protostub"
+	"verif.local/lab/rt"
 	"verif.local/lab/spec"
 	"verif.local/lab/vc"
 )
 
 type witness struct {
+	// Exchange is set in the witnesses of the runtime half (runtime.go): the replay re-runs that one case
+	Exchange *rt.GExchange     `json:"exchange,omitempty"`
 	Spec     *spec.Spec        `json:"spec"`
 	DSL      string            `json:"dsl"`
 	Status   string            `json:"status"`
@@ -45,6 +48,7 @@ type witness struct {
 	Diags    []string          `json:"diags,omitempty"`
 	Protos   map[string]string `json:"protos,omitempty"`
 	Findings []finding         `json:"findings,omitempty"`
+	Crash    string            `json:"crash,omitempty"` // runtime half: the driver process died in this case
 }
 
 func scratch() string {
@@ -145,8 +149,9 @@ func grpcServices(s *spec.Spec) []*spec.Service {
 	return out
 }
 
-// judge applies the C10 generation-time oracle to one design.
-func judge(run *vc.Run, d *pipeline.Design, verbose bool) {
+// judge applies the C10 generation-time oracle to one design. It reports whether the design is fit for the
+// runtime half: accepted, well formed, structurally equal to the spec, generated transport code compiles.
+func judge(run *vc.Run, d *pipeline.Design, verbose bool) (drivable bool) {
 	run.Eval(1)
 	run.Count("designs_"+d.Status, 1)
 	w := witness{Spec: d.Spec, DSL: d.DSL, Status: d.Status, Phase: d.Phase, Errors: d.Errors, Stack: d.Stack, Diags: d.Diags}
@@ -163,21 +168,21 @@ func judge(run *vc.Run, d *pipeline.Design, verbose bool) {
 		if os.Getenv("VERIF_DEBUG") != "" {
 			fmt.Fprintf(os.Stderr, "REJECTED %s: %s\n%s\n", d.ID, d.Errors, d.DSL)
 		}
-		return
+		return false
 	case "timeout":
 		if os.Getenv("VERIF_DEBUG") != "" {
 			fmt.Fprintf(os.Stderr, "TIMEOUT %s: %s\n%s\n%s\n", d.ID, d.Errors, d.Stderr, d.DSL)
 		}
 		run.Inconclusive("generator watchdog")
-		return
+		return false
 	case "panic":
 		site := vc.PanicSite(d.Stack, "/repo/", strings.TrimPrefix(pipeline.Repo(), "/")+"/")
 		if d.Phase == "dsl" || d.Phase == "eval" {
 			run.Inconclusive("panic during DSL evaluation at " + site + " (C12)")
-			return
+			return false
 		}
 		run.Violation("panic:"+d.Phase+":"+site, fmt.Sprintf("accepted gRPC design, generator %q panicked: %s", d.Phase, firstLine(d.Errors)), w)
-		return
+		return false
 	case "crash", "nodesign":
 		if os.Getenv("VERIF_DEBUG") != "" {
 			fmt.Fprintf(os.Stderr, "CRASH %s: %s\n%s\n%s\n", d.ID, d.Errors, headS(d.Stack, 3000), d.DSL)
@@ -191,10 +196,10 @@ func judge(run *vc.Run, d *pipeline.Design, verbose bool) {
 			// the DSL was evaluated and accepted long before: the recursion is inside a generator
 			w.Stack = headS(d.Stack, 6000)
 			run.Violation("crash:stack-overflow:"+fn, "accepted gRPC design, the generator process dies with a stack overflow in "+fn, w)
-			return
+			return false
 		}
 		run.Inconclusive("labgen did not complete: " + firstLine(d.Errors))
-		return
+		return false
 	}
 	// accepted or generror: the .proto files are on disk either way (protoc runs after they are written)
 	w.Protos = protoFiles(d.Dir)
@@ -231,11 +236,11 @@ func judge(run *vc.Run, d *pipeline.Design, verbose bool) {
 			key := "generror:" + d.Phase + ":" + pipeline.NormMsg(firstLine(d.Errors))
 			if strings.Contains(d.Errors, "failed to run protoc") {
 				run.Infra("stand-in protoc failed on a file the monitor's parser accepts: %s", firstLine(d.Errors))
-				return
+				return false
 			}
 			run.Violation(key, fmt.Sprintf("accepted gRPC design, generator %q failed: %s", d.Phase, firstLine(d.Errors)), w)
 		}
-		return
+		return false
 	}
 	// structural clauses against the spec
 	svcs := grpcServices(d.Spec)
@@ -301,10 +306,10 @@ func judge(run *vc.Run, d *pipeline.Design, verbose bool) {
 		}
 	}
 	if genBroken {
-		return
+		return false
 	}
 	if malformed || len(pc.out) > 0 {
-		return
+		return false
 	}
 	say("all structural clauses hold and the generated code compiles")
 	run.Count("designs_compiled", 1)
@@ -321,6 +326,7 @@ func judge(run *vc.Run, d *pipeline.Design, verbose bool) {
 			run.Seen("stream_kinds", k)
 		}
 	}
+	return true
 }
 
 func runBatch(dir string, specs []*spec.Spec) (*pipeline.Batch, error) {
@@ -343,7 +349,8 @@ func main() {
 	run.Rule("gRPC specs drawn from (seed, index) [services, methods, payload/result shapes, field numbers, OneOf, aliases, nested/recursive types, metadata/header/trailer mappings, 4 streaming kinds], printed as DSL, run through the real eval.RunDSL + generator.Generate(gen, example) in a fresh process each with the stand-in protoc first on PATH; every generated .proto re-parsed by the independent proto3 parser and compared with the spec; every generated package compiled; non-trivial = accepted, well-formed, structurally equal to the spec and compiled; distinct = distinct feature signature")
 	run.Assume("protoc and protoc-gen-go are absent from the sandbox: well-formedness is decided by the lab's own strict proto3 parser (grammar and semantic checks transcribed from the protobuf language specification), Go API compatibility by stand-in *.pb.go files whose identifiers follow protoc-gen-go's published naming algorithm (GoCamelCase, conflict suffixes, oneof wrappers)",
 		"attribute, type, service and method names are ASCII identifiers; proto messages/fields/rpcs are matched to spec types/attributes/methods by case- and underscore-insensitive name (goa's exact renaming is not part of the property)",
-		"this check decides the generation-time clauses of C10; round trips are decided by the runtime driver over the same stand-in (pbrt loopback)")
+		"generation-time clauses and round trips are decided by the same run: the runtime half (runtime.go) drives every design that passed the generation-time clauses")
+	rtDeclare(run)
 	run.Floor(4)
 	sc := scratch()
 	if err := buildProtoc(sc); err != nil {
@@ -368,7 +375,19 @@ func main() {
 			fmt.Printf("---- %s\n%s\n", rel, txt)
 		}
 		run.Floor(0)
-		judge(run, d, true)
+		drivable := judge(run, d, w.Exchange == nil && w.Crash == "")
+		if w.Exchange != nil || w.Crash != "" {
+			// witness of the runtime half: drive that one case again (the whole case list for a crash) and print the oracle's reasoning
+			if !drivable {
+				fmt.Println("the design is not drivable any more (see the generation-time verdict)")
+				run.Finish()
+			}
+			var only []*rt.GCase
+			if w.Exchange != nil {
+				only = []*rt.GCase{w.Exchange.Case}
+			}
+			runtimePhase(run, b, []*pipeline.Design{d}, only, true)
+		}
 		run.Finish()
 	}
 	n := run.N(24, 300)
@@ -397,9 +416,12 @@ func main() {
 		if err != nil {
 			run.Infra("%v", err)
 		}
+		var drivable []*pipeline.Design
 		for _, d := range b.Designs {
 			before := run.Violations()
-			judge(run, d, false)
+			if judge(run, d, false) {
+				drivable = append(drivable, d)
+			}
 			if os.Getenv("VERIF_DEBUG") != "" {
 				fmt.Fprintf(os.Stderr, "DESIGN %s %-40s status=%s new_violation_keys=%d diags=%d %s\n", d.ID, d.Spec.ID+" "+strings.Join(d.Spec.Features, ","), d.Status, run.Violations()-before, len(d.Diags), firstLine(d.Errors))
 			}
@@ -415,7 +437,14 @@ func main() {
 				fmt.Fprintf(os.Stderr, "batch %d: %s=%d\n", lo/100, k, c[k])
 			}
 		}
+		if os.Getenv("VERIF_C10_NORT") == "" {
+			runtimePhase(run, b, drivable, nil, false)
+		}
+		if os.Getenv("VERIF_KEEP") == "" && hi < len(specs) {
+			os.RemoveAll(b.Dir) // thorough tier: keep the scratch small
+		}
 	}
 	run.Sample(map[string]any{"spec": specs[0]})
+	rtFinish(run)
 	run.Finish()
 }
